@@ -69,6 +69,7 @@ void reb_integrator_sei_part1(struct reb_simulation* const r){
 	for (int i=0;i<N;i++){
 		operator_H012(r->dt, ri_sei, &(particles[i]));
 	}
+	REB_VERIF(r, "sei_H", 2, r->dt/2., r->dt);
 	r->t+=r->dt/2.;
 }
 
@@ -81,6 +82,8 @@ void reb_integrator_sei_part2(struct reb_simulation* r){
 		operator_phi1(r->dt, &(particles[i]));
 		operator_H012(r->dt, ri_sei, &(particles[i]));
 	}
+	REB_VERIF(r, "sei_phi", 2, r->dt, r->dt);
+	REB_VERIF(r, "sei_H", 2, r->dt/2., r->dt);
 	r->t+=r->dt/2.;
 	r->dt_last_done = r->dt;
 }
